@@ -90,8 +90,14 @@ func structureOf(x *distilled) string {
 }
 
 func runC02(ctx *Ctx) {
+	pc := newPipeCorr()
+	defer pc.run(ctx)
 	ctx.Rep.Rule = "article-like pages in which every word is a unique token, over all block kinds (paragraphs, headings, nested lists, quotes, pre, data/layout tables, figures with captions before/after the image, pictures, link clusters, hidden blocks, embeds); distinct by tag structure of the distilled HTML; non-trivial = at least two retained words and at least one source word dropped"
 	contentRun{id: "C02", n: [2]int{400, 20000}, url: pageURL,
+		corr: func(ctx *Ctx, x *distilled, replay interface{}) {
+			pc.add(ctx, x.D, x.Root, true, replay)
+			pc.add(ctx, x.D, x.Root, false, replay)
+		},
 		oracle: func(ctx *Ctx, x *distilled, replay interface{}) bool {
 			oracleC02(ctx.Rep, x, replay)
 			out := len(tokensOf(x.Res.Text))
